@@ -133,7 +133,36 @@ impl Scenario for ConvergeScenario {
         let mut clock = 1_000_000u64;
         let rounds = rng.urange(3, 14);
         for _ in 0..rounds {
-            match rng.below(12) {
+            match rng.below(13) {
+                12 => {
+                    // events of one type await their confirmation (the confirm is held up) while another type overflows and is
+                    // still full when the confirm arrives
+                    let types: Vec<PointType> = {
+                        let mut t: Vec<PointType> = ocfg.points.iter().map(|p| p.ptype).collect();
+                        t.dedup();
+                        t
+                    };
+                    if types.len() >= 2 {
+                        let a = *rng.pick(&types);
+                        let b = *rng.pick(&types);
+                        let of = |t: PointType| -> Vec<crate::verif::nodes::outstation::PointCfg> {
+                            ocfg.points.iter().filter(|p| p.ptype == t).cloned().collect()
+                        };
+                        let (pa, pb) = (of(a), of(b));
+                        script.push(POp::Stall {
+                            to_master: false,
+                            ms: rng.range(200, ocfg.confirm_timeout_ms + 500),
+                        });
+                        script.push(POp::Update(vec![tune(gen_update(rng, &pa, &mut clock))]));
+                        script.push(POp::Sleep(rng.range(1, 100)));
+                        let n = rng.urange(2, 70);
+                        script.push(POp::Update(
+                            (0..n)
+                                .map(|_| tune(gen_update(rng, &pb, &mut clock)))
+                                .collect(),
+                        ));
+                    }
+                }
                 0..=3 => {
                     let n = if rng.chance(1, 6) {
                         rng.urange(20, 80)
